@@ -32,9 +32,60 @@ class Sym:
         self.cfg = cfg_of(f)
         self.rd = reaching_defs(self.cfg)
 
+    def table_loop(self, dn, name):
+        """dn is `name = name.replace(a, b)` inside `for a, b in <constant table of pairs>`: (loop node, [(a, b), ...])."""
+        a = dn.ast
+        if not (dn.kind == "stmt" and isinstance(a, ast.Assign) and isinstance(a.value, ast.Call) and isinstance(a.value.func, ast.Attribute)
+                and a.value.func.attr == "replace" and isinstance(a.value.func.value, ast.Name) and a.value.func.value.id == name
+                and len(a.value.args) == 2 and all(isinstance(x, ast.Name) for x in a.value.args)):
+            return None
+        for L in reversed(dn.loops):
+            if L.kind != "for" or not isinstance(L.ast.target, ast.Tuple) or len(L.ast.target.elts) != 2:
+                continue
+            if [norm(x) for x in L.ast.target.elts] != [norm(x) for x in a.value.args]:
+                continue
+            it = L.ast.iter
+            tbl = it
+            if isinstance(it, ast.Name):
+                r = self.prog.resolve_name(self.f.mod, it.id, self.f)
+                if isinstance(r, tuple) and r[0] == "expr":
+                    tbl = r[2]
+            if isinstance(tbl, (ast.Tuple, ast.List)) and all(isinstance(x, (ast.Tuple, ast.List)) and len(x.elts) == 2 and
+                                                              all(isinstance(y, ast.Constant) for y in x.elts) for x in tbl.elts):
+                return L, [(x.elts[0].value, x.elts[1].value) for x in tbl.elts]
+        return None
+
     def name_alts(self, name, node, depth):
         defs = self.rd[node.id].get(name, frozenset())
         out = []
+        # a replacement loop over a constant table is unrolled in table order
+        handled = set()
+        for d in sorted(defs):
+            dn = self.cfg.nodes[d]
+            t = self.table_loop(dn, name)
+            if t is None:
+                continue
+            handled.add(d)
+            L, pairs = t
+            outer = [x for x in self.rd[L.id].get(name, frozenset()) if L not in self.cfg.nodes[x].loops]
+            if pairs:
+                handled |= set(outer)     # a non-empty constant table: the zero-iteration bypass is infeasible
+            base = []
+            for od in sorted(outer):
+                on = self.cfg.nodes[od]
+                if on is self.cfg.entry:
+                    base.append(Alt([("param", name)]))
+                elif on.kind == "for":
+                    base.append(Alt([("loopvar", name, on.id)], (on,)))
+                elif on.kind == "stmt" and isinstance(on.ast, ast.Assign):
+                    for a in self.alts(on.ast.value, on, depth + 1):
+                        base.append(Alt(a.ops, a.nodes + (on,)))
+            for b in base:
+                cur = b
+                for (x, y) in pairs:
+                    cur = cur.add(("replace", x, y), dn)
+                out.append(cur)
+        defs = [d for d in defs if d not in handled]
         for d in sorted(defs):
             dn = self.cfg.nodes[d]
             if dn is self.cfg.entry:
@@ -96,8 +147,6 @@ def canonical_index_regex(pat):
 
 
 def run(ctx):
-    prog = ctx.prog
-    calls = calls_of(prog)
     ctx.explanation = (
         "resolve_fragment is one short dataflow from the fragment parameter to the subscript on the document. The checker "
         "extracts, by reaching definitions, every way the tokenised value and each token can have been computed, as an ordered "
@@ -106,6 +155,12 @@ def run(ctx):
         "arrays and canonical indices, R14.4 every lookup failure becomes RefResolutionError. Not decided: value identity "
         "beyond the pipeline (Python indexing, trusted).")
     ctx.assume("str.split/replace/startswith, urllib.parse.unquote and re.fullmatch behave as documented")
+    run_rules(ctx)
+
+
+def run_rules(ctx):
+    prog = ctx.prog
+    calls = calls_of(prog)
     f = find_method(prog, "validators.RefResolver", "resolve_fragment")
     sym = Sym(prog, f)
     cfg = sym.cfg
